@@ -13,6 +13,7 @@ use std::time::Duration;
 macro_rules! error { ($($t:tt)*) => { () }; }
 macro_rules! debug { ($($t:tt)*) => { () }; }
 
+pub const MAP_CAP: usize = 4;
 include!("/verif/models/shim/btreemap.rs");
 
 #[derive(Clone, Copy, Debug, PartialEq, Eq, PartialOrd, Ord)]
